@@ -948,6 +948,7 @@ fn explore(ev: &mut Evidence, vs: u64, plan: &Plan, logfold: &mut Fold) {
 
     // ---------------- seeded runs (fault-free batch and fault-injecting batch)
     let nruns: usize = plan.nruns;
+    let mut traces: std::collections::BTreeSet<u64> = Default::default();
     let max_players = plan.max_players;
     let small = plan.dev;
     for (batch, faults_on) in [("plain", false), ("faults", true)] {
@@ -959,6 +960,8 @@ fn explore(ev: &mut Evidence, vs: u64, plan: &Plan, logfold: &mut Fold) {
             ev.steps += c.res.next_calls;
             logfold.add(c.res.log);
             let nf: u64 = c.res.faults.values().sum();
+            ev.probe("global_states_seen_sum_over_runs", c.res.states as u64);
+            traces.insert(c.res.trace_hash);
             ev.merge_counts(&c.res.faults, &c.res.probes);
             if let Some(_s) = &c.res.skipped {
                 ev.probe("seeded_runs_skipped_reference_abnormal", 1);
@@ -986,6 +989,7 @@ fn explore(ev: &mut Evidence, vs: u64, plan: &Plan, logfold: &mut Fold) {
             }
         }
     }
+    ev.probe("distinct_schedule_traces", traces.len() as u64);
 }
 
 fn pos_index_safe(p: Pos) -> usize {
